@@ -358,15 +358,6 @@ pub fn c08_authority_vs_rep7_n7() {
     authority_vs_rep::<7, 7, EQ>()
 }
 
-// @h prop=C07,C08 tier=thorough kind=check timeout=5400 mem=26 bound="UriRef <= 6 bytes x representative 's:' (both orders)" encodes="same as c08_uriref_vs_rep6_n5"
-#[cfg_attr(kani, kani::proof)]
-#[cfg_attr(kani, kani::unwind(14))]
-#[cfg_attr(kani, kani::stub(smallvec::SmallVec::try_grow, crate::stubs::sv_try_grow))]
-#[cfg_attr(kani, kani::stub(smallvec::SmallVec::push, crate::stubs::sv_push))]
-pub fn c08_uriref_vs_rep0_n6() {
-    uriref_vs_rep::<6, 0, EQ>()
-}
-
 // @h prop=C07,C08 tier=thorough kind=check timeout=5400 mem=26 bound="UriRef <= 6 bytes x representative 's://h/a?q#f' (both orders)" encodes="same as c08_uriref_vs_rep6_n5"
 #[cfg_attr(kani, kani::proof)]
 #[cfg_attr(kani, kani::unwind(14))]
@@ -376,42 +367,6 @@ pub fn c08_uriref_vs_rep1_n6() {
     uriref_vs_rep::<6, 1, EQ>()
 }
 
-// @h prop=C07,C08 tier=thorough kind=check timeout=5400 mem=26 bound="UriRef <= 6 bytes x representative 'a' (both orders)" encodes="same as c08_uriref_vs_rep6_n5"
-#[cfg_attr(kani, kani::proof)]
-#[cfg_attr(kani, kani::unwind(14))]
-#[cfg_attr(kani, kani::stub(smallvec::SmallVec::try_grow, crate::stubs::sv_try_grow))]
-#[cfg_attr(kani, kani::stub(smallvec::SmallVec::push, crate::stubs::sv_push))]
-pub fn c08_uriref_vs_rep2_n6() {
-    uriref_vs_rep::<6, 2, EQ>()
-}
-
-// @h prop=C07,C08 tier=thorough kind=check timeout=5400 mem=26 bound="UriRef <= 6 bytes x representative '?' (both orders)" encodes="same as c08_uriref_vs_rep6_n5"
-#[cfg_attr(kani, kani::proof)]
-#[cfg_attr(kani, kani::unwind(14))]
-#[cfg_attr(kani, kani::stub(smallvec::SmallVec::try_grow, crate::stubs::sv_try_grow))]
-#[cfg_attr(kani, kani::stub(smallvec::SmallVec::push, crate::stubs::sv_push))]
-pub fn c08_uriref_vs_rep3_n6() {
-    uriref_vs_rep::<6, 3, EQ>()
-}
-
-// @h prop=C07,C08 tier=thorough kind=check timeout=5400 mem=26 bound="UriRef <= 6 bytes x representative '#' (both orders)" encodes="same as c08_uriref_vs_rep6_n5"
-#[cfg_attr(kani, kani::proof)]
-#[cfg_attr(kani, kani::unwind(14))]
-#[cfg_attr(kani, kani::stub(smallvec::SmallVec::try_grow, crate::stubs::sv_try_grow))]
-#[cfg_attr(kani, kani::stub(smallvec::SmallVec::push, crate::stubs::sv_push))]
-pub fn c08_uriref_vs_rep4_n6() {
-    uriref_vs_rep::<6, 4, EQ>()
-}
-
-// @h prop=C07,C08 tier=thorough kind=check timeout=5400 mem=26 bound="UriRef <= 6 bytes x representative '//h' (both orders)" encodes="same as c08_uriref_vs_rep6_n5"
-#[cfg_attr(kani, kani::proof)]
-#[cfg_attr(kani, kani::unwind(14))]
-#[cfg_attr(kani, kani::stub(smallvec::SmallVec::try_grow, crate::stubs::sv_try_grow))]
-#[cfg_attr(kani, kani::stub(smallvec::SmallVec::push, crate::stubs::sv_push))]
-pub fn c08_uriref_vs_rep5_n6() {
-    uriref_vs_rep::<6, 5, EQ>()
-}
-
 // @h prop=C07,C08 tier=thorough kind=check timeout=5400 mem=26 bound="UriRef <= 6 bytes x representative 's:a/..' (both orders)" encodes="same as c08_uriref_vs_rep6_n5"
 #[cfg_attr(kani, kani::proof)]
 #[cfg_attr(kani, kani::unwind(14))]
@@ -419,33 +374,6 @@ pub fn c08_uriref_vs_rep5_n6() {
 #[cfg_attr(kani, kani::stub(smallvec::SmallVec::push, crate::stubs::sv_push))]
 pub fn c08_uriref_vs_rep6_n6() {
     uriref_vs_rep::<6, 6, EQ>()
-}
-
-// @h prop=C07,C08 tier=thorough kind=check timeout=5400 mem=26 bound="UriRef <= 6 bytes x representative 'S:' (both orders)" encodes="same as c08_uriref_vs_rep6_n5"
-#[cfg_attr(kani, kani::proof)]
-#[cfg_attr(kani, kani::unwind(14))]
-#[cfg_attr(kani, kani::stub(smallvec::SmallVec::try_grow, crate::stubs::sv_try_grow))]
-#[cfg_attr(kani, kani::stub(smallvec::SmallVec::push, crate::stubs::sv_push))]
-pub fn c08_uriref_vs_rep7_n6() {
-    uriref_vs_rep::<6, 7, EQ>()
-}
-
-// @h prop=C07,C08 tier=thorough kind=check timeout=5400 mem=26 bound="UriRef <= 6 bytes x representative 's:/%61' (both orders)" encodes="same as c08_uriref_vs_rep6_n5"
-#[cfg_attr(kani, kani::proof)]
-#[cfg_attr(kani, kani::unwind(14))]
-#[cfg_attr(kani, kani::stub(smallvec::SmallVec::try_grow, crate::stubs::sv_try_grow))]
-#[cfg_attr(kani, kani::stub(smallvec::SmallVec::push, crate::stubs::sv_push))]
-pub fn c08_uriref_vs_rep8_n6() {
-    uriref_vs_rep::<6, 8, EQ>()
-}
-
-// @h prop=C07,C08 tier=thorough kind=check timeout=5400 mem=26 bound="UriRef <= 6 bytes x representative '//h/' (both orders)" encodes="same as c08_uriref_vs_rep6_n5"
-#[cfg_attr(kani, kani::proof)]
-#[cfg_attr(kani, kani::unwind(14))]
-#[cfg_attr(kani, kani::stub(smallvec::SmallVec::try_grow, crate::stubs::sv_try_grow))]
-#[cfg_attr(kani, kani::stub(smallvec::SmallVec::push, crate::stubs::sv_push))]
-pub fn c08_uriref_vs_rep9_n6() {
-    uriref_vs_rep::<6, 9, EQ>()
 }
 
 // @h prop=C08 tier=thorough kind=check timeout=2400 mem=40 bound="Uri text <= 3 bytes: hash stream of Uri vs the same text as UriRef" encodes="Hash for Uri and UriRef;Borrow<UriRef> for Uri"
